@@ -492,6 +492,7 @@ type model struct {
 
 	pendingActionRules []pendingAction
 	extraUsage         map[string]int64
+	args               []string // the argument list handed to Compile (default: just the program name)
 }
 
 func (it *Interp) typeConst(name string) int64 {
@@ -1067,11 +1068,20 @@ func (m *model) runStmts(rg *region, stmts []ast.Stmt) (em *emission) {
 	for _, fld := range rg.fd.Type.Params.List {
 		for _, n := range fld.Names {
 			var v Value = &Unknown{"parameter " + n.Name}
-			if n.Name == "file" {
+			// by type: the grammar's file name is the string, the argument list the []string
+			switch types.TypeString(info.Defs[n].Type(), nil) {
+			case "string":
 				v = "model.peg"
-			}
-			if n.Name == "args" {
-				v = &SliceV{elems: []Value{"peg"}}
+			case "[]string":
+				av := &SliceV{elems: []Value{}}
+				args := m.args
+				if args == nil {
+					args = []string{"peg"}
+				}
+				for _, a := range args {
+					av.elems = append(av.elems, a)
+				}
+				v = av
 			}
 			env.define(info.Defs[n], v)
 		}
